@@ -11,7 +11,7 @@ LEVEL_TEXT = ("For synthetic PSD matrices (Wishart, low rank + noise floor, pres
               "the retained subspace, carry no weight outside it, and have residual variance no larger than random perturbed competitors "
               "and than an independently computed optimum. End to end, matrices from the covariance builder go through the class method "
               "(must equal the free function on the object's current matrix) in multi-step histories that re-make the matrix after the "
-              "configuration changed, including an on-axis sensor duplicating an off-axis one (R must be the selector). Exploration.")
+              "configuration changed, including an on-axis sensor duplicating an off-axis one (R must be the selector, to 2 eps32 cond), one step per shard through a real 2-worker pool, and a 520-slope single-precision system with default zero conditioning. Exploration.")
 LEVEL_NOTE = "Trusted: float64 eigendecomposition (NumPy). Tolerances scale with eps of the input dtype times the retained condition number."
 RULE = "case = (matrix family, size, partition, dtype, conditioning) or end-to-end history; non-trivial when there are >= 2 off-axis slopes; distinct by matrix digest and parameters"
 ASSUMPTIONS = ["the conditioning value lies in a gap of the spectrum of C_off,off (so the retained subspace is unambiguous)",
